@@ -176,7 +176,7 @@ SYNTAX_ERRORS = ('SyntaxError', 'IndentationError', 'TabError')
 def _r1(model, res, c):
     cg = c.cg
     roots = sorted(cg.p_roots)
-    res.floor('grammar actions', len(roots), 20)
+    res.floor('grammar actions', len(roots), 10)
     reach = cg.reachable(roots)
     n = 0
     for k in sorted(reach):
@@ -577,6 +577,24 @@ def _r6(model, res, c):
                       'the identifier-shaped function name in %r is not lexed as a FUNCTION token: a custom function registered '
                       'under such a name can never be called (the formula gives #ERROR! and the function is not invoked)' % w,
                       case=w, func='t_FUNCTION')
+    # variable names: every identifier of letters/underscores, and every letter followed by letters, digits, underscores, is one VARIABLE
+    # lexeme (names shaped like a cell label are claimed by the cell tokens before it - not part of this rule)
+    vt = g.lex_token('VARIABLE')
+    if vt is not None:
+        for spec_re, what in ((r'[A-Za-z_]+', 'a name of letters and underscores (also with a leading underscore)'),
+                              (r'[A-Za-z][A-Za-z_0-9]+', 'a letter followed by letters, digits and underscores')):
+            try:
+                V = rx.build(vt.regex)
+                S_ = rx.build(spec_re)
+                w2 = rx.difference_witness(S_, V, rx.alphabet([V, S_]))
+            except rx.Unsupported as e:
+                res.ob('R6', 'lexer:t_VARIABLE', what, True, 'undecided: %s' % e)
+                continue
+            res.ob('R6', 'lexer:t_VARIABLE', 'L(%s) is included in L(VARIABLE)' % spec_re, w2 is None, 'counter-example %r' % w2)
+            if w2 is not None:
+                res.violation('R6', 'lexer:t_VARIABLE:name-not-lexable', g.lexer_module.where(vt.node),
+                              'the variable name %r (%s) is not one VARIABLE token: a variable set under that name can never be read back - '
+                              'the formula consisting of the name gives #NAME?/#ERROR! instead of the value' % (w2, what), case=w2, func='t_VARIABLE')
     # ... and is not pre-empted by an earlier token
     for t in g.lex_tokens:
         if t.order < ft.order:
